@@ -130,9 +130,9 @@ def build_gather(P):
         nn = " && ".join(["%s.%s != 0" % ("st.data", st) for st, sel, ty, val in attrs + other] + ["st.data.detector != 0", "st.data.track_id != 0"])
         sig = ("void SGE_call(StepGatherExecutor const* self, CoreTrackView const* track)\n"
                "__CPROVER_requires(self != 0 && self->params != 0 && self->state != 0 && track != 0 && track->t != 0)\n"
-               "__CPROVER_requires(%s.size_ >= 1 && %s.size_ <= 64 && track->slot < %s.size_ && g_w < %s.size_)\n" % (D, D, D, D)
+               "__CPROVER_requires(%s.size_ >= 1 && %s.size_ <= 8 && track->slot < %s.size_ && g_w < %s.size_)\n" % (D, D, D, D)
                + "__CPROVER_requires(%s)\n" % rw
-               + "__CPROVER_requires(self->params->detector.size <= 4096 && __CPROVER_r_ok(self->params->detector.ptr, self->params->detector.size * sizeof(size_type)))\n"
+               + "__CPROVER_requires(self->params->detector.size <= 16 && __CPROVER_r_ok(self->params->detector.ptr, self->params->detector.size * sizeof(size_type)))\n"
                + "/* an active track is inside the geometry in a known volume whose entry exists in the detector map (if any detectors are defined) */\n"
                + "__CPROVER_requires((track->t->status != TS_inactive && self->params->detector.size != 0) ==> (!track->t->outside && track->t->volume != INVALID_ID && track->t->volume < self->params->detector.size))\n"
                + "__CPROVER_requires(track->t->status >= 0 && track->t->status < 5)\n"
@@ -143,7 +143,7 @@ def build_gather(P):
         return (HDR + SGE_MODEL + "#define P %d\n" % P + ghost + sig + "{" + pc.body + "}\n" + """
 void h_sge(void)
 {
-    size_type n, slot, w, nd; __CPROVER_assume(n >= 1 && n <= 64 && nd <= 4096);
+    size_type n, slot, w, nd; __CPROVER_assume(n >= 1 && n <= 8 && nd <= 16);
     StepStateData st; StepParamsData pr; GTrack t; unsigned b[32];
     st.data.size_ = n;
     """ + "\n    ".join(alloc) + """
@@ -202,9 +202,9 @@ def build_calo(ctx):
 #define DET (self->step.data.detector[tid])
 #define TALLY(d) (self->calo.energy_deposition.ptr[d])
 void SCE_call(SimpleCaloExecutor* self, size_type tid)
-__CPROVER_requires(self != 0 && self->step.data.detector_size >= 1 && self->step.data.detector_size <= 64 && self->step.data.edep_size == self->step.data.detector_size)
+__CPROVER_requires(self != 0 && self->step.data.detector_size >= 1 && self->step.data.detector_size <= 8 && self->step.data.edep_size == self->step.data.detector_size)
 __CPROVER_requires(__CPROVER_r_ok(self->step.data.detector, self->step.data.detector_size * sizeof(size_type)) && __CPROVER_r_ok(self->step.data.energy_deposition, self->step.data.edep_size * sizeof(real_type)))
-__CPROVER_requires(self->calo.energy_deposition.size >= 1 && self->calo.energy_deposition.size <= 4096 && __CPROVER_rw_ok(self->calo.energy_deposition.ptr, self->calo.energy_deposition.size * sizeof(real_type)))
+__CPROVER_requires(self->calo.energy_deposition.size >= 1 && self->calo.energy_deposition.size <= 16 && __CPROVER_rw_ok(self->calo.energy_deposition.ptr, self->calo.energy_deposition.size * sizeof(real_type)))
 __CPROVER_requires(tid < self->step.data.detector_size)     /* own CELER_EXPECT */
 /* what the gather kernels deliver for a slot with a detector: the detector exists in this calorimeter and the deposit is positive
    (SimpleCalo selects energy_deposition and sets the non-zero-deposit filter) */
@@ -217,7 +217,7 @@ __CPROVER_ensures((DET == INVALID_ID || g_w != DET) ==> TALLY(g_w) == g_oldw)
 {""" + pc.body + """}
 void h_sce(void)
 {
-    size_type n, nd, tid, w; __CPROVER_assume(n >= 1 && n <= 64 && nd >= 1 && nd <= 4096);
+    size_type n, nd, tid, w; __CPROVER_assume(n >= 1 && n <= 8 && nd >= 1 && nd <= 16);
     SimpleCaloExecutor ex;
     ex.step.data.detector = malloc(n * sizeof(size_type)); ex.step.data.energy_deposition = malloc(n * sizeof(real_type));
     ex.step.data.detector_size = n; ex.step.data.edep_size = n;
